@@ -25,17 +25,42 @@ PARTIAL BY DESIGN (DESIGN.md §3 C10).  Proved here, for ALL inputs of the model
     invariant under member order, way reversal and re-cutting (`spec_permutation_invariant`,
     `segments_invariant_*`).
 
-NOT PROVED (listed in tools/manifest.d/C10.json): that the ring-building search of
-basic_assembler.hpp (`add_new_ring`, `add_new_ring_complex`, `find_candidates`,
-`join_connected_rings`, `find_enclosing_ring`, `find_inner_outer_complex`) always finds a valid
-arrangement when one exists, nests rings correctly and produces an area with `Valid = true`.
-That part is validated on generated inputs: the executable `Valid` (this file's spec, run by
-lean/Driver/C10.lean) and an independent oracle judge every area the real assembler produces.
+  * RING BUILDING, stage A (`create_locations_list`, `find_split_locations` with the slocations
+    the code sorts and scans): `m_locations` is THE stable-sorted list of all (item, reverse) pairs
+    (`locations_list_spec`, `locations_list_unique`); for every segment list the reported open ends
+    are the nodes of odd degree and `m_split_locations` is exactly the ascending list of the nodes
+    of degree ≥ 4 (`find_split_locations_spec`, `split_locations_exact`);
+  * stage B (`get_next_segment`, `add_new_ring`, `create_rings_simple_case`), for every segment
+    list in which every node has degree 2 and for EVERY function in the place of
+    `find_enclosing_ring`: the loops terminate with the measure "segments not yet in a ring" and
+    without assertion failure (`add_new_ring_loop_terminates`, `simple_case_terminates`), every ring
+    is a closed chain (`simple_rings_closed`) of ≥ 3 segments / ≥ 4 points (`simple_rings_min3`),
+    the rings contain every segment exactly once (`simple_rings_partition`) — with
+    `erase_duplicates_parity` that is the even-odd fill (`simple_rings_even_odd`) —, the rings are
+    the connected components of the segment graph (`simple_rings_are_components`) and therefore do
+    not depend on the order/direction in which the segments were listed
+    (`simple_case_order_independent`, `simple_case_input_order_independent`);
+  * stage C: rings leave `add_new_ring` with outer = counter-clockwise, inner = clockwise
+    (`simple_rings_oriented`) and the ring containing the overall minimum segment is the first ring
+    and is outer (`first_ring_outer`);
+  * stage D (`add_new_ring_complex` and the two loops of `create_rings_complex_case` that cut the
+    segments into partial rings): termination, every partial ring is a chain that is closed or joins
+    two split locations and passes through none, the partial rings contain every segment exactly
+    once (`complex_pieces_partition`).
+
+NOT PROVED (listed in tools/manifest.d/C10.json): `find_enclosing_ring` (which outer ring an inner
+ring is attached to: it compares `double`s; modelled executably in `findEnclosingRing`, checked
+against the real code on every run, and the theorems above hold for ANY answer it gives), and the
+complex case after the cutting (`try_to_merge`, `join_connected_rings`, `find_candidates`,
+`find_inner_outer_complex`).  Those parts are validated on generated inputs: the executable `Valid`
+(this file's spec, run by lean/Driver/C10.lean) and an independent oracle judge every area the real
+assembler produces.
 -/
 import Osmium.Lemmas.AreaGeom
 import Osmium.Lemmas.AreaOrder
 import Osmium.Lemmas.AreaList
 import Osmium.Lemmas.AreaSplit
+import Osmium.Lemmas.AreaRing7
 
 namespace Osmium.Area.C10
 
@@ -388,6 +413,339 @@ example : Valid exampleInput [⟨[⟨0, 0⟩, ⟨10, 0⟩, ⟨10, 10⟩, ⟨0, 1
 example : Valid exampleInput [⟨[⟨0, 0⟩, ⟨0, 10⟩, ⟨10, 10⟩, ⟨10, 0⟩, ⟨0, 0⟩],
     [[⟨2, 2⟩, ⟨2, 4⟩, ⟨4, 4⟩, ⟨4, 2⟩, ⟨2, 2⟩]]⟩] = false := by decide
 example : Valid exampleInput [⟨[⟨0, 0⟩, ⟨10, 0⟩, ⟨10, 10⟩, ⟨0, 10⟩, ⟨0, 0⟩], []⟩] = false := by decide
+
+
+/-! ## RING BUILDING
+
+`segs` is `m_segment_list` when ring building starts.  In `create_rings()` that is
+`eraseDuplicates (sortSegs input)`: well-formed (`wfSegs_of_erase`), duplicate-free
+(`erase_duplicates_nodup`), sorted (`erase_duplicates_sorted`). -/
+
+/-! ### stage A: `m_locations` and `find_split_locations` -/
+
+/-- `create_locations_list()` : `m_locations` contains every (segment, end) pair exactly once, every
+    entry refers to an existing segment, and the list is sorted by location with equal locations in
+    push order — the contract of `std::stable_sort`. -/
+theorem locations_list_spec (segs : List Seg) :
+    (locationsList segs).Perm (allSLocs segs.length) ∧ StableSorted segs (locationsList segs) ∧
+    (∀ x ∈ locationsList segs, x.item < segs.length) ∧
+    (locationsList segs).map (SLoc.loc segs) = endpointList segs :=
+  ⟨locationsList_perm segs, locations_stable segs, locations_items_lt segs, locationsList_map_loc segs⟩
+
+/-- ... and that contract determines the list: whatever stable sorting algorithm the library uses,
+    it produces `locationsList`. -/
+theorem locations_list_unique (segs : List Seg) (l : List SLoc) (hp : l.Perm (allSLocs segs.length))
+    (hs : StableSorted segs l) : l = locationsList segs :=
+  stableSorted_unique segs l _ (hp.trans (locationsList_perm segs).symm) hs (locations_stable segs)
+
+/-- `find_split_locations()` for EVERY segment list (valid locations): the locations it reports with
+    `report_ring_not_closed` are exactly the nodes with an odd number of segment ends, each once, in
+    ascending order; it returns `false` (some report) iff there is such a node. -/
+theorem find_split_locations_spec (segs : List Seg) (hu : undefinedLoc ∉ endpoints segs) :
+    ((findSplitLocations segs).1.map (SLoc.loc segs) =
+        runsWith (fun c => c % 2 == 1) (endpointList segs)) ∧
+    (∀ v, v ∈ (findSplitLocations segs).1.map (SLoc.loc segs) ↔ (endpoints segs).count v % 2 = 1) ∧
+    ((findSplitLocations segs).1 = [] ↔ ∀ v, (endpoints segs).count v % 2 = 0) := by
+  have h := (findSplitLocations_eq segs hu).1
+  have hmem : ∀ v, v ∈ (findSplitLocations segs).1.map (SLoc.loc segs) ↔ (endpoints segs).count v % 2 = 1 := by
+    intro v
+    rw [h, mem_runsWith, (endpointList_perm segs).mem_iff, (endpointList_perm segs).count_eq]
+    simp only [beq_iff_eq]
+    constructor
+    · exact fun h => h.2
+    · intro h1
+      refine ⟨?_, h1⟩
+      apply Classical.byContradiction
+      intro hn
+      rw [List.count_eq_zero_of_not_mem hn] at h1
+      omega
+  refine ⟨h, hmem, ?_⟩
+  constructor
+  · intro he v
+    have := (hmem v).not
+    rw [he] at this
+    simp only [List.map_nil, List.not_mem_nil, not_false_eq_true, true_iff] at this
+    omega
+  · intro hall
+    cases hl : (findSplitLocations segs).1 with
+    | nil => rfl
+    | cons a t =>
+      have := (hmem (a.loc segs)).mp (by rw [hl]; simp)
+      have := hall (a.loc segs)
+      omega
+
+/-- `m_split_locations` for EVERY segment list (valid locations, open rings or not): exactly the
+    nodes where four or more segment ends meet, each once, in strictly ascending order. -/
+theorem split_locations_exact (segs : List Seg) (hu : undefinedLoc ∉ endpoints segs) :
+    ((findSplitLocations segs).2 = runsWith (fun c => decide (c ≥ 4)) (endpointList segs)) ∧
+    (∀ v, v ∈ (findSplitLocations segs).2 ↔ 4 ≤ (endpoints segs).count v) ∧
+    (findSplitLocations segs).2.Pairwise (fun a b => a.lt b = true) := by
+  have h := (findSplitLocations_eq segs hu).2
+  refine ⟨h, ?_, ?_⟩
+  · intro v
+    rw [h, mem_runsWith, (endpointList_perm segs).mem_iff, (endpointList_perm segs).count_eq]
+    simp only [ge_iff_le, decide_eq_true_eq]
+    constructor
+    · exact fun h => h.2
+    · intro h4
+      refine ⟨?_, h4⟩
+      apply Classical.byContradiction
+      intro hn
+      rw [List.count_eq_zero_of_not_mem hn] at h4
+      omega
+  · rw [h]; exact runsWith_strict _ _ (endpointList_sorted segs)
+
+/-- the hypothesis of the two theorems above holds for every segment list the assembler builds:
+    `extract_segments_from_way` skips invalid locations, and the default-constructed location that
+    `find_split_locations` uses as initial `previous_location` is not `valid()` -/
+theorem segment_ends_never_undefined (ws : List (List Node)) :
+    undefinedLoc ∉ endpoints (eraseDuplicates (sortSegs (allSegments ws))) :=
+  undefined_not_endpoint ws
+
+/-- the counting scan used by `preCheck` is this scan -/
+theorem find_split_locations_precheck (segs : List Seg) (hu : undefinedLoc ∉ endpoints segs) :
+    openAndSplit segs = ((findSplitLocations segs).1.length, (findSplitLocations segs).2.length) :=
+  openAndSplit_eq_findSplit segs hu
+
+/-- two triangles and a square through (1,1), one spike: the odd nodes (1,4) and (2,4) are reported,
+    (1,1) — degree 6 — is the split location -/
+def splitExample : List Seg :=
+  [⟨⟨0, 0⟩, ⟨1, 1⟩⟩, ⟨⟨0, 0⟩, ⟨0, 1⟩⟩, ⟨⟨0, 1⟩, ⟨1, 1⟩⟩, ⟨⟨1, 1⟩, ⟨2, 2⟩⟩, ⟨⟨1, 1⟩, ⟨2, 1⟩⟩, ⟨⟨2, 1⟩, ⟨2, 2⟩⟩,
+   ⟨⟨1, 1⟩, ⟨1, 3⟩⟩, ⟨⟨1, 1⟩, ⟨0, 3⟩⟩, ⟨⟨0, 3⟩, ⟨1, 3⟩⟩, ⟨⟨1, 4⟩, ⟨2, 4⟩⟩]
+
+example : undefinedLoc ∉ endpoints splitExample := by decide
+example : (findSplitLocations splitExample).1.map (SLoc.loc splitExample) = [⟨1, 4⟩, ⟨2, 4⟩] ∧
+    (findSplitLocations splitExample).2 = [⟨1, 1⟩] := by decide
+example : locationsList [⟨⟨0, 0⟩, ⟨1, 0⟩⟩, ⟨⟨0, 0⟩, ⟨0, 1⟩⟩] = [⟨0, false⟩, ⟨1, false⟩, ⟨1, true⟩, ⟨0, true⟩] := by decide
+
+/-! ### stage B: the simple case -/
+
+/-- THE LOOP OF `add_new_ring` TERMINATES.  Measure: the number of segments that are not in a ring.
+    Started with the ring's first and last location having one end in a ring each and `fuel` at
+    least that measure, the loop ends without an assertion failure of `get_next_segment`, the ring
+    is a closed chain extending the initial chain by segments that were not in a ring, and
+    afterwards no location has exactly one of its ends in a ring. -/
+theorem add_new_ring_loop_terminates (segs : List Seg) (hw : WfSegs segs) (h2 : Deg2 segs)
+    (fuel : Nat) (first last : Vec) (ds : List Nat) (cur : List SLoc)
+    (hd : DoneOk segs ds) (hfuel : segs.length - ds.length ≤ fuel)
+    (hopen : OpenAt segs ds first last) (hpath : IsPath segs first cur last) :
+    ∃ ds' ext, ringLoop segs (locationsList segs) fuel first last ds cur = some (ds', cur ++ ext) ∧
+      DoneOk segs ds' ∧ Closed segs ds' ∧ IsPath segs first (cur ++ ext) first ∧
+      ds' = (ext.map SLoc.item).reverse ++ ds :=
+  ringLoop_spec segs hw h2 fuel first last ds cur hd (by omega) (Or.inr hopen) hpath
+
+/-- `create_rings_simple_case()` TERMINATES on every segment list in which every node has degree 2
+    (no open ring, no split location), whatever `find_enclosing_ring` answers — as long as it
+    answers (its own `assert` is the only way to fail). -/
+theorem simple_case_terminates (enc : Enclosing) (segs : List Seg) (hw : WfSegs segs) (h2 : Deg2 segs)
+    (henc : ∀ rings i, enc rings i ≠ none) : ∃ rings ds, createRingsSimple enc segs = some (rings, ds) := by
+  rcases createRingsSimple_spec enc segs hw h2 with ⟨rings, ds, h, _⟩ | ⟨_, rs, i, hf⟩
+  · exact ⟨rings, ds, h⟩
+  · exact absurd hf (henc rs i)
+
+/-- what `createRingsSimple` returns satisfies the ring invariants -/
+theorem simple_case_result (enc : Enclosing) (segs : List Seg) (hw : WfSegs segs) (h2 : Deg2 segs)
+    (rings : List PRing) (ds : List Nat) (h : createRingsSimple enc segs = some (rings, ds)) :
+    (∀ r ∈ rings, RingOk segs r.segs) ∧ (allItems rings).Perm (List.range segs.length) := by
+  rcases createRingsSimple_spec enc segs hw h2 with ⟨rings', ds', h', hok, hp, _⟩ | ⟨hn, _⟩
+  · rw [h] at h'
+    simp only [Option.some.injEq, Prod.mk.injEq] at h'
+    rw [h'.1]; exact ⟨hok, hp⟩
+  · rw [h] at hn; cases hn
+
+/-- EVERY RING IS CLOSED: a chain in which every segment starts where the previous one stopped and
+    the last one stops where the first one starts; the node sequence written to the area has equal
+    first and last node. -/
+theorem simple_rings_closed (enc : Enclosing) (segs : List Seg) (hw : WfSegs segs) (h2 : Deg2 segs)
+    (rings : List PRing) (ds : List Nat) (h : createRingsSimple enc segs = some (rings, ds)) :
+    ∀ r ∈ rings, (∃ a, IsPath segs a r.segs a) ∧ ringClosed ((ringOf segs r.segs).points) = true := by
+  intro r hr
+  have hok := (simple_case_result enc segs hw h2 rings ds h).1 r hr
+  obtain ⟨a, ha⟩ := hok.closed
+  exact ⟨⟨a, ha⟩, points_closed segs r.segs a ha hok.nonempty⟩
+
+/-- EVERY RING HAS AT LEAST 3 SEGMENTS, HENCE AT LEAST 4 POINTS, when the list has no duplicate and
+    no zero-length segment (which `erase_duplicate_segments` / `extract_segments_from_way` ensure). -/
+theorem simple_rings_min3 (enc : Enclosing) (segs : List Seg) (hw : WfSegs segs) (hnd : segs.Nodup)
+    (h2 : Deg2 segs) (rings : List PRing) (ds : List Nat)
+    (h : createRingsSimple enc segs = some (rings, ds)) :
+    ∀ r ∈ rings, 3 ≤ r.segs.length ∧ 4 ≤ ((ringOf segs r.segs).points).length := by
+  intro r hr
+  have hok := (simple_case_result enc segs hw h2 rings ds h).1 r hr
+  have h3 := ring_min3 segs hw hnd r.segs hok
+  refine ⟨h3, ?_⟩
+  rw [points_length segs r.segs hok.nonempty]; omega
+
+/-- THE RINGS PARTITION THE SEGMENT LIST: every segment is in exactly one ring, exactly once. -/
+theorem simple_rings_partition (enc : Enclosing) (segs : List Seg) (hw : WfSegs segs) (h2 : Deg2 segs)
+    (rings : List PRing) (ds : List Nat) (h : createRingsSimple enc segs = some (rings, ds)) :
+    (allItems rings).Perm (List.range segs.length) ∧ (allRingSegs segs rings).Perm segs := by
+  have hp := (simple_case_result enc segs hw h2 rings ds h).2
+  exact ⟨hp, allRingSegs_perm segs rings hp⟩
+
+/-- ... so, for the list `create_rings()` hands to ring building, the segments of the rings are the
+    input segments of odd multiplicity, each once: the region covered is the EVEN-ODD FILL of the
+    input segments (simple case). -/
+theorem simple_rings_even_odd (enc : Enclosing) (l : List Seg) (hwf : ∀ s ∈ l, s.wf = true)
+    (h2 : Deg2 (eraseDuplicates (sortSegs l))) (rings : List PRing) (ds : List Nat)
+    (h : createRingsSimple enc (eraseDuplicates (sortSegs l)) = some (rings, ds)) (s : Seg) :
+    (allRingSegs (eraseDuplicates (sortSegs l)) rings).count s = l.count s % 2 := by
+  rw [(simple_rings_partition enc _ (wfSegs_of_erase l hwf) h2 rings ds h).2.count_eq]
+  exact erase_duplicates_parity l hwf s
+
+/-- THE RINGS ARE THE CONNECTED COMPONENTS of the graph whose vertices are the segments and whose
+    edges join segments sharing an end point: a segment is in a ring iff it is connected to (any
+    segment of) that ring. -/
+theorem simple_rings_are_components (enc : Enclosing) (segs : List Seg) (hw : WfSegs segs) (h2 : Deg2 segs)
+    (rings : List PRing) (ds : List Nat) (h : createRingsSimple enc segs = some (rings, ds))
+    (r : PRing) (hr : r ∈ rings) (s : Seg) (hs : s ∈ ringSegs segs r.segs) (t : Seg) :
+    t ∈ ringSegs segs r.segs ↔ Conn segs s t :=
+  ring_is_component segs h2 r.segs ((simple_case_result enc segs hw h2 rings ds h).1 r hr) s hs t
+
+/-- ORDER INDEPENDENCE.  Take the same segments in any other order (`segs'` a permutation of `segs`:
+    other member order, other way directions, other cuts — and hence other segment numbers, another
+    tie order in `m_locations`, other starting points and directions of the rings) and any other
+    `find_enclosing_ring`: two segments end up in the same ring in one run iff they do in the other.
+    Each ring being a closed chain through all of its segments in a graph of degree 2, the rings are
+    the same cyclic sequences up to rotation and reversal. -/
+theorem simple_case_order_independent (enc enc' : Enclosing) (segs segs' : List Seg) (hp : segs.Perm segs')
+    (hw : WfSegs segs) (h2 : Deg2 segs) (rings rings' : List PRing) (ds ds' : List Nat)
+    (h : createRingsSimple enc segs = some (rings, ds))
+    (h' : createRingsSimple enc' segs' = some (rings', ds')) (s t : Seg) :
+    SameRing segs rings s t ↔ SameRing segs' rings' s t := by
+  have hw' := wfSegs_perm hp hw
+  have h2' := deg2_perm hp h2
+  have r1 := simple_case_result enc segs hw h2 rings ds h
+  have r2 := simple_case_result enc' segs' hw' h2' rings' ds' h'
+  rw [sameRing_iff_conn segs h2 rings r1.1 r1.2, sameRing_iff_conn segs' h2' rings' r2.1 r2.2]
+  exact ⟨Conn.of_mem_iff (fun x => hp.mem_iff), Conn.of_mem_iff (fun x => hp.mem_iff.symm)⟩
+
+/-- A RING IS DETERMINED BY THE SET OF ITS SEGMENTS: in a duplicate-free list in which every node has
+    degree 2, two closed chains of distinct segments over the same segment set are rotations of each
+    other, or one is a rotation of the other one reversed. -/
+theorem ring_determined_by_segments (segs : List Seg) (hw : WfSegs segs)
+    (h2 : ∀ v, (endpoints segs).count v = 0 ∨ (endpoints segs).count v = 2)
+    (g g' : Ring) (hg : GeoRing segs g) (hg' : GeoRing segs g')
+    (hset : ∀ s, s ∈ g.map DSeg.seg ↔ s ∈ g'.map DSeg.seg) :
+    Rot g g' ∨ Rot (Ring.reverse g) g' :=
+  geo_unique segs hw h2 g g' hg hg' hset
+
+/-- ORDER INDEPENDENCE, cyclic form: list the same segments in any other order (and with any other
+    `find_enclosing_ring`); then every ring of the first run occurs in the second run as the same
+    cyclic sequence of directed segments, up to rotation and reversal. -/
+theorem simple_case_order_independent_cyclic (enc enc' : Enclosing) (segs segs' : List Seg)
+    (hp : segs.Perm segs') (hw : WfSegs segs) (hnd : segs.Nodup) (h2 : Deg2 segs)
+    (rings rings' : List PRing) (ds ds' : List Nat)
+    (h : createRingsSimple enc segs = some (rings, ds))
+    (h' : createRingsSimple enc' segs' = some (rings', ds')) :
+    ∀ r ∈ rings, ∃ r' ∈ rings', Rot (ringOf segs r.segs) (ringOf segs' r'.segs) ∨
+      Rot (Ring.reverse (ringOf segs r.segs)) (ringOf segs' r'.segs) := by
+  have r1 := simple_case_result enc segs hw h2 rings ds h
+  have r2 := simple_case_result enc' segs' (wfSegs_perm hp hw) (deg2_perm hp h2) rings' ds' h'
+  exact rings_cyclic_of_perm segs segs' hp hw hnd h2 rings rings' r1.1 r2.1 r2.2
+
+/-- ... and in the pipeline of `create_rings()` the dependence on the input order disappears even
+    earlier: the list handed to ring building is the same list. -/
+theorem simple_case_input_order_independent (enc : Enclosing) (l l' : List Seg)
+    (hwf : ∀ s ∈ l, s.wf = true) (hp : l.Perm l') :
+    createRingsSimple enc (eraseDuplicates (sortSegs l)) = createRingsSimple enc (eraseDuplicates (sortSegs l')) := by
+  rw [sort_function_of_multiset l l' hwf hp]
+
+/-- a square with a square hole (two rings, every node of degree 2) -/
+def simpleExample : List Seg := eraseDuplicates (sortSegs exampleInput)
+
+example : WfSegs simpleExample ∧ simpleExample.Nodup ∧ deg2Check simpleExample = true := by
+  unfold WfSegs; decide
+example : Deg2 simpleExample := deg2_of_check _ (by decide)
+example : (createRingsSimple (fun _ _ => some (some 0)) simpleExample).map (·.1) =
+    some [⟨[⟨1, false⟩, ⟨7, false⟩, ⟨2, true⟩, ⟨0, true⟩], none⟩,
+          ⟨[⟨3, false⟩, ⟨5, false⟩, ⟨6, true⟩, ⟨4, true⟩], some 0⟩] := by decide
+-- the loop invariant is satisfiable: after the first segment of the outer ring
+example : OpenAt simpleExample [1] ⟨0, 0⟩ ⟨10, 0⟩ ∧ DoneOk simpleExample [1] ∧
+    IsPath simpleExample ⟨0, 0⟩ [⟨1, false⟩] ⟨10, 0⟩ := by
+  refine ⟨⟨by decide, by decide, by decide, ?_⟩, by unfold DoneOk; decide, by simp only [IsPath]; decide⟩
+  intro v h1 h2
+  have hb : dc simpleExample [1] v = (if (⟨0, 0⟩ : Vec) = v then 1 else 0) + (if (⟨10, 0⟩ : Vec) = v then 1 else 0) := by
+    have := dc_cons simpleExample [] 1 (by simp) (by decide) v
+    rw [dc_nil] at this
+    rw [this]; simp [simpleExample, segAt]; rfl
+  rw [hb]
+  simp [Ne.symm h1, Ne.symm h2]
+-- the same segments listed backwards: other numbers, other starting points — the same cyclic sequences
+example : simpleExample.Perm (simpleExample.reverse) := (List.reverse_perm _).symm
+example : (createRingsSimple (fun _ _ => some none) simpleExample.reverse).map (fun p => p.1.map (·.segs)) =
+    some [[⟨6, false⟩, ⟨0, false⟩, ⟨5, true⟩, ⟨7, true⟩], [⟨3, false⟩, ⟨1, false⟩, ⟨2, true⟩, ⟨4, true⟩]] := by decide
+example : Rot (ringOf simpleExample [⟨1, false⟩, ⟨7, false⟩, ⟨2, true⟩, ⟨0, true⟩])
+    (ringOf simpleExample.reverse [⟨6, false⟩, ⟨0, false⟩, ⟨5, true⟩, ⟨7, true⟩]) :=
+  ⟨[], _, rfl, by decide⟩
+example : GeoRing simpleExample (ringOf simpleExample [⟨1, false⟩, ⟨7, false⟩, ⟨2, true⟩, ⟨0, true⟩]) :=
+  ⟨by decide, ⟨⟨0, 0⟩, by simp only [ringOf, List.map, DPath]; decide⟩, by decide, by decide⟩
+
+/-! ### stage C: orientation, the first ring -/
+
+/-- EVERY RING LEAVES `add_new_ring` ORIENTED: an outer ring has shoelace sum ≥ 0, an inner ring
+    ≤ 0 — strictly when the ring encloses a non-zero area — whatever `find_enclosing_ring` said. -/
+theorem simple_rings_oriented (enc : Enclosing) (segs : List Seg) (rings : List PRing) (ds : List Nat)
+    (h : createRingsSimple enc segs = some (rings, ds)) (r : PRing) (hr : r ∈ rings) :
+    (r.outer = none → 0 ≤ (ringOf segs r.segs).sum) ∧ (r.outer ≠ none → (ringOf segs r.segs).sum ≤ 0) ∧
+    ((ringOf segs r.segs).sum ≠ 0 → (r.outer = none → 0 < (ringOf segs r.segs).sum) ∧
+      (r.outer ≠ none → (ringOf segs r.segs).sum < 0)) := by
+  obtain ⟨more, hm, hor⟩ := simpleFor_shape enc segs _ _ _ _ _ _ _ h
+  rw [List.nil_append] at hm
+  have := hor r (hm ▸ hr)
+  refine ⟨this.1, this.2, fun hne => ⟨fun ho => ?_, fun ho => ?_⟩⟩
+  · have := this.1 ho; omega
+  · have := this.2 ho; omega
+
+/-- THE RING CONTAINING THE OVERALL MINIMUM SEGMENT IS THE FIRST RING AND IT IS OUTER
+    (`find_enclosing_ring` is not consulted for it), on the sorted list `create_rings()` builds. -/
+theorem first_ring_outer (enc : Enclosing) (segs : List Seg) (hw : WfSegs segs) (hs : SortedSegs segs)
+    (hne : 0 < segs.length) (rings : List PRing) (ds : List Nat)
+    (h : createRingsSimple enc segs = some (rings, ds)) :
+    ∃ r more, rings = r :: more ∧ r.outer = none ∧ 0 ∈ ringItems r.segs ∧ 0 ≤ (ringOf segs r.segs).sum := by
+  obtain ⟨r, more, hr, ho, h0⟩ := first_ring_outer_of enc segs hw hs hne rings ds h
+  exact ⟨r, more, hr, ho, h0, (simple_rings_oriented enc segs rings ds h r (by rw [hr]; simp)).1 ho⟩
+
+example : SortedSegs simpleExample ∧ 0 < simpleExample.length := by
+  exact ⟨erase_duplicates_sorted _ (by decide), by decide⟩
+example : ((ringOf simpleExample [⟨1, false⟩, ⟨7, false⟩, ⟨2, true⟩, ⟨0, true⟩]).sum,
+    (ringOf simpleExample [⟨3, false⟩, ⟨5, false⟩, ⟨6, true⟩, ⟨4, true⟩]).sum) = (200, -8) := by decide
+
+/-! ### stage D: the complex case is cut into partial rings -/
+
+/-- THE PARTIAL RINGS OF THE COMPLEX CASE.  When every node has even degree and `splits` are the
+    nodes of degree ≥ 4 (what `find_split_locations` delivers: `split_locations_exact`), the two
+    loops of `create_rings_complex_case()` around `add_new_ring_complex()` terminate without an
+    assertion failure, and: every partial ring is a chain that is closed or runs from a split
+    location to a split location, touching no split location in between; the partial rings contain
+    every segment exactly once. -/
+theorem complex_pieces_partition (segs : List Seg) (splits : List Vec) (hw : WfSegs segs)
+    (hsp : SplitsOk segs splits) :
+    ∃ pieces ds, createPieces segs splits = some (pieces, ds) ∧
+      (∀ p ∈ pieces, PieceOk segs splits p) ∧ (allPieceItems pieces).Perm (List.range segs.length) :=
+  createPieces_spec segs splits hw hsp
+
+/-- ... instantiated with the split locations the model of `find_split_locations` computes -/
+theorem complex_pieces_partition_found (segs : List Seg) (hw : WfSegs segs)
+    (hu : undefinedLoc ∉ endpoints segs) (heven : ∀ v, (endpoints segs).count v % 2 = 0) :
+    ∃ pieces ds, createPieces segs (findSplitLocations segs).2 = some (pieces, ds) ∧
+      (∀ p ∈ pieces, PieceOk segs (findSplitLocations segs).2 p) ∧
+      (allPieceItems pieces).Perm (List.range segs.length) := by
+  apply createPieces_spec segs _ hw
+  constructor
+  · intro v; rw [deg_eq_count]; exact heven v
+  · intro v; rw [deg_eq_count]; exact (split_locations_exact segs hu).2.1 v
+
+/-- two triangles touching in (2,0): one split location, two partial rings -/
+def touchExample : List Seg :=
+  [⟨⟨0, 0⟩, ⟨1, 2⟩⟩, ⟨⟨0, 0⟩, ⟨2, 0⟩⟩, ⟨⟨1, 2⟩, ⟨2, 0⟩⟩, ⟨⟨2, 0⟩, ⟨3, 2⟩⟩, ⟨⟨2, 0⟩, ⟨4, 0⟩⟩, ⟨⟨3, 2⟩, ⟨4, 0⟩⟩]
+
+example : WfSegs touchExample ∧ splitsCheck touchExample [⟨2, 0⟩] = true ∧
+    (findSplitLocations touchExample).2 = [⟨2, 0⟩] := by
+  unfold WfSegs; decide
+example : SplitsOk touchExample [⟨2, 0⟩] := splitsOk_of_check _ _ (by decide)
+example : (createPieces touchExample [⟨2, 0⟩]).map (·.1) =
+    some [[⟨1, true⟩, ⟨0, false⟩, ⟨2, false⟩], [⟨3, false⟩, ⟨5, false⟩, ⟨4, true⟩]] := by decide
 
 /-! ### what the unproved part gets wrong today (finding recorded by the check)
 
